@@ -138,6 +138,15 @@ func vhTmpNames() []string {
 	return out
 }
 
+// vhScrub (native replay only): a directory left at the supplied path by an earlier
+// replay of a broken tree would make this replay's mkdir fail; remove it (empty
+// FS_* directories directly under /tmp only). The engine's /tmp starts empty.
+func vhScrub(p string) {
+	if vIsNative() && len(p) > 8 && p[:8] == "/tmp/FS_" {
+		_ = os.Remove(p)
+	}
+}
+
 func vhHasName(names []string, n string) bool {
 	r := false
 	for _, x := range names {
@@ -166,6 +175,8 @@ func VH_C18_ClientEffects() {
 	vAssume(vASCIIStr(p))
 	vAssume(vNoneOf(p, ":"))
 	verdict := vChoice("verdict", 2) - 1
+	vhScrub(p)
+	defer vhScrub(p)
 	before := vhTmpNames()
 	checked := false
 	io_.peer = func(k int) []vhItem {
